@@ -123,6 +123,53 @@ fn shard(ctx: &ShardCtx) -> ShardResult {
     }
     let mut i = ctx.first_index;
     let clock = ctx.clock();
+    // part (b): e2e 'run' tests against the maintainers' expected results (a seed-rotated slice
+    // in quick, as many as fit into a third of the budget; all of them in thorough)
+    if ctx.first_index == 0 {
+        match crate::e2e::prepare("C01") {
+            Ok(root) => {
+                let all = crate::e2e::list_run_tests(&root);
+                let mine = crate::e2e::slice_for(&all, ctx.seed, ctx.shard, ctx.nshards);
+                for t in mine {
+                    if clock.elapsed() > ctx.budget.mul_f64(ctx.tier.pick(0.3, 0.45)) {
+                        break;
+                    }
+                    let Some(expected) = t.expected.clone() else { continue };
+                    for profile in Profile::BOTH {
+                        if t.unsupported_profiles.iter().any(|p| p == profile.name()) {
+                            continue;
+                        }
+                        ctx.begin_case(0, &format!("e2e {}", t.name), &res);
+                        let built = catch(AssertUnwindSafe(|| plain_build(&t.dir, profile)));
+                        ctx.end_case();
+                        match built {
+                            Ok(Ok(p)) => {
+                                res.evaluations += 1;
+                                res.count("e2e_tests_run");
+                                let obs = run_script(&p.bytecode.bytes, &t.script_data);
+                                // a VM panic ends the script with Revert(0) for the purposes of the e2e expectation
+                                let outcome = match &obs.outcome {
+                                    Outcome::Panic(_) => Outcome::Revert(0),
+                                    o => o.clone(),
+                                };
+                                if expected.matches(&outcome) {
+                                    res.count("e2e_expected_result_matched");
+                                    res.note_nontrivial(hash64(format!("{}{}", t.name, profile.name()).as_bytes()));
+                                } else {
+                                    res.violation(format!("e2e-expected-result-differs:{}:{}", t.name, profile.name()), format!("e2e test {} ({}): maintainers expect {:?}, observed {}", t.name, profile.name(), expected, obs.short()), json!({"e2e": t.name}));
+                                }
+                            }
+                            _ => {
+                                res.count("e2e_build_failed");
+                                res.inconclusive(format!("e2e test {} does not build here ({})", t.name, profile.name()));
+                            }
+                        }
+                    }
+                }
+            }
+            Err(e) => res.inconclusive(format!("e2e corpus copy failed: {e}")),
+        }
+    }
     while clock.left() {
         let case = case_at(ctx.seed, ctx.shard, i, 12, &mut res);
         journal_current(ctx, &case.src);
@@ -140,6 +187,26 @@ fn shard(ctx: &ShardCtx) -> ShardResult {
 fn replay(case: &Value) -> ShardResult {
     // regenerate the recorded case (needed for the dead-UB arbitration) and run it again
     let mut res = ShardResult::default();
+    if let Some(name) = case.get("e2e").and_then(|x| x.as_str()) {
+        if let Ok(root) = crate::e2e::prepare("C01") {
+            if let Some(t) = crate::e2e::list_run_tests(&root).into_iter().find(|t| t.name == name) {
+                for profile in Profile::BOTH {
+                    if let (Ok(Ok(p)), Some(expected)) = (catch(AssertUnwindSafe(|| plain_build(&t.dir, profile))), t.expected.clone()) {
+                        res.evaluations += 1;
+                        let obs = run_script(&p.bytecode.bytes, &t.script_data);
+                        let outcome = match &obs.outcome {
+                            Outcome::Panic(_) => Outcome::Revert(0),
+                            o => o.clone(),
+                        };
+                        if !expected.matches(&outcome) {
+                            res.violation(format!("e2e-expected-result-differs:{}:{}", t.name, profile.name()), format!("maintainers expect {:?}, observed {}", expected, obs.short()), case.clone());
+                        }
+                    }
+                }
+            }
+        }
+        return res;
+    }
     let work = work_dir("C01").join("replay");
     clean_dir(&work);
     let mut am = Amortised::new(&work);
